@@ -204,6 +204,16 @@ def psat(T):
     return 1.0e6 * (2.0 * C / (-B + math.sqrt(B ** 2 - 4.0 * A * C))) ** 4
 
 
+def singular_saturation_states():
+    """(T0 [K], p0 [Pa]): where the leading coefficients of the two saturation quadratics vanish inside the range
+    (A(theta(T0)) = 0 near 175.17 degC; E(beta(p0)) = 0 near 0.726 MPa)."""
+    n = _N4
+    th0 = 0.5 * (-n[1] + math.sqrt(n[1] ** 2 - 4.0 * n[2]))
+    T0 = 0.5 * ((th0 + n[10]) - math.sqrt((th0 + n[10]) ** 2 - 4.0 * (th0 * n[10] + n[9])))
+    be0 = 0.5 * (-n[3] - math.sqrt(n[3] ** 2 - 4.0 * n[6]))
+    return T0, 1.0e6 * be0 ** 4
+
+
 def tsat(p):
     """Saturation temperature [K] at p [Pa] (IF97 eq. 31)."""
     n = _N4
